@@ -17,19 +17,20 @@ Inductive c03case :=
 
 Definition unq (s : string) : bool := negb (String.eqb s "bad").
 
-(* a top tree with the observed facts *)
-Definition mk_top (has_nil : bool) (paths : list bool) : tree :=
+(* the statements of a top tree with the observed facts *)
+Definition mk_top (has_nil : bool) (paths : list bool) : list tree :=
   let imp := match paths with
              | [] => @nil tree
              | _ => [TNode "import" "import"
                        (flat_map (fun ok : bool => [TNode "(name)" "n" []; TNode "(string)" (if ok then "ok" else "bad") []]) paths)]
              end in
-  TNode "" "_" (imp ++ [if has_nil then TNode "/" "/" [TNode "(name)" "x" []; TNil] else TNode "(name)" "x" []])%list.
+  (imp ++ [if has_nil then TNode "/" "/" [TNode "(name)" "x" []; TNil] else TNode "(name)" "x" []])%list.
 
 Definition is_err (o : obs) (p : string) : bool := match o with OErr q => String.eqb p q | _ => false end.
 Definition is_esc (o : obs) : bool := match o with OEsc _ => true | _ => false end.
 
 Definition ok_state : vmstate := mkVmstate ["nil"] [0%Z] 0%Z [].
+(* "error in run: unexpected returns: ..." and a run-time error share the prefix "error in run: " *)
 Definition comp_of (fails : bool) : comp_beh := if fails then CPanic false else CRet ["nil"] [].
 Definition run_of (fails : bool) : run_beh := if fails then RPanic ok_state else RRet.
 
@@ -39,7 +40,7 @@ Definition eval_adv_of (has_nil : bool) (paths : list bool) (base : obs) : eval_
     (if is_err base "error in parse: " then PPanic else PRet (mk_top has_nil paths))
     (if is_esc base then FPanic
      else if is_err base "error in loadImports: " then FErr
-     else FRet (fun _ => None) (fun _ => TNode "" "" []) 1000)
+     else FRet (fun _ => None) (fun _ => []) 1000)
     (comp_of (is_err base "error in compile (imports): "))
     (run_of (is_err base "error in run (imports): "))
     (comp_of (is_err base "error in compile: "))
@@ -71,10 +72,10 @@ Definition obs_of (o : outcome) : option obs :=
 Definition load_adv_of (has_nil : bool) (base : obs) : load_adv :=
   mkLoadAdv
     (if is_esc base then TopPanic else if is_err base "error in load: " then TopErr else TopRet (mk_top has_nil []))
-    (FRet (fun _ => None) (fun _ => TNode "" "" []) 1000)
+    (FRet (fun _ => None) (fun _ => []) 1000)
     (comp_of (is_err base "error in compile: "))
     (run_of (is_err base "error in run: "))
-    (if is_err base "unexpected returns: " then 1 else 0).
+    0.
 
 Definition run_c03case (c : c03case) : bool :=
   match c with
